@@ -480,8 +480,9 @@ func runC26(c *Ctx) {
 				return commaOkLocals(info, parse.Decl.Body)[info.ObjectOf(x)]
 			case *ast.CallExpr:
 				if cal := callee(info, x); cal != nil && cal.Pkg() != nil && cal.Pkg().Path() == "strings" && (cal.Name() == "Contains" || cal.Name() == "HasPrefix") {
-					_, isLit := strConst(info, x.Args[1])
-					return isLit
+					lit, isLit := strConst(info, x.Args[1])
+					// only the template's delimiters: a test for any other character looks inside a field
+					return isLit && (lit == "://" || lit == "@" || lit == "/" || lit == ":")
 				}
 			case *ast.BinaryExpr:
 				if _, ok := x.X.(*ast.IndexExpr); ok {
